@@ -48,6 +48,12 @@ MESSAGES = [
     '123',
     '  leading and trailing blanks  ',
     'a,b,"c",\n"d"',
+    'carriage\rreturn',
+    'ends with backslash \\',
+    '# starts with hash',
+    '"',
+    '""',
+    "tab\tseparated\tvalues",
     'x' * 9000,          # > 8 KiB: several raw writes
 ]
 
@@ -345,6 +351,7 @@ class Ref:
         self.log = []               # (severity, path, message) acked, in order of acknowledgement
         self.log_times = []         # (invoke seq, return seq) per acked message (in-situ mode)
         self.db_only = set()        # keys stored through the database only
+        self.files = {}             # key -> set of ('metadata'|'localfile') acknowledged
         self.annot_writes = {}      # name -> [(text, invoke seq, return seq)] acknowledged writes
         self.clock = 0
 
@@ -357,6 +364,7 @@ class Ref:
         r.log_times = list(self.log_times)
         r.db_only = set(self.db_only)
         r.annot_writes = {k: list(v) for k, v in self.annot_writes.items()}
+        r.files = {k: set(v) for k, v in self.files.items()}
         r.clock = self.clock
         return r
 
@@ -404,6 +412,8 @@ def apply_ack(ref, op):
     elif k == 'db_store_model':
         e = POOL[op['model']]
         ref.keys_acked.setdefault(e['key'], {'results': False})
+    elif k in ('metadata', 'localfile'):
+        ref.files.setdefault(POOL[op['model']]['key'], set()).add(k)
     elif k == 'log':
         ref.log.append((op['sev'], log_path_of(op), op['msg']))
         ref.log_times.append(op.get('_times'))
@@ -585,6 +595,26 @@ def check_state(root, ref, inflight, V, where, wl_models, do_progress=True):
             V.count('r2.committed_ok')
         else:
             V.count('r1.complete_visible')
+    # ---- files stored next to an entry (store_metadata, store_local_file) are verbatim
+    for key, kinds in ref.files.items():
+        if key in infl.keys:
+            continue            # an interrupted later transaction hides the key (finding F3)
+        kdir = os.path.join(str(db.path), key)
+        try:
+            if 'metadata' in kinds:
+                import json as _json
+                with simfs._orig['open'](os.path.join(kdir, '.pharmpy', 'metadata.json')) as fh:
+                    if _json.load(fh) != {'tool': 'x', 'n': 3}:
+                        V.viol('stored-file-corrupted', f'{where}: metadata of {key[:8]} differs')
+            if 'localfile' in kinds:
+                pth = db.retrieve_file(ModelHash(key), 'local.lst')
+                with simfs._orig['open'](pth) as fh:
+                    if fh.read() != 'some local file\n' * 40:
+                        V.viol('stored-file-corrupted', f'{where}: local file of {key[:8]} differs')
+            V.count('r2.files_ok')
+        except Exception as ex:
+            V.viol(f'stored-file-unretrievable/{type(ex).__name__}',
+                   f'{where}: acknowledged metadata/local file of {key[:8]}: {ex!r}')
     # ---- by name
     try:
         names = ctx.list_all_names()
